@@ -273,6 +273,225 @@ def merged_order(log, writes, p):
 OWNER = {}
 
 
+# ---- (b') the deployment around the notify server: real sockets, several start attempts on ONE port ----------
+#
+# The scenarios above put the simulated workers around ONE NotifyServer object.  In a deployment the hub is not an object but
+# whatever answers on the notify port, and more than one process may run the main-process start-up (workers started without
+# preloading, a reload during which the old and the new main worker overlap, two relay instances on one database): each of
+# them calls NotifyServer(port).start(), and every worker's NotifyClient connects to the port.  The property does not care how
+# many start attempts there were: the workers must end up in ONE broadcast group - every id announced by one worker reaches
+# every other worker exactly once and never comes back to the announcing one.  That can only be observed with the real
+# transport (who answers on a port is decided by the kernel, not by a StreamReader), so this family runs the real
+# asyncio.start_server / asyncio.open_connection on a free loopback port.
+
+DEPLOYMENT_SHAPES = ("workers-without-preload", "overlapping-reload", "several-instances", "random-interleaving",
+                     "single-main-process")
+
+
+def _free_port():
+    """a loopback port nobody listens on (chosen by the operating system: the one thing of a deployment case that does not
+    derive from the seed; the steps, the ids and the order of the announcements do)"""
+    import socket
+
+    s = socket.socket()
+    try:
+        s.bind(("127.0.0.1", 0))
+        return s.getsockname()[1]
+    finally:
+        s.close()
+
+
+def deployment_steps(rng, shape, n_workers):
+    """["start"] = one process runs the main-process start-up (NotifyServer(port).start()); ["worker", w] = worker w's storage
+    connects its NotifyClient.  The first step is always a start (somebody has to be first)."""
+    workers = list(range(n_workers))
+    rng.shuffle(workers)
+    wsteps = [["worker", w] for w in workers]
+    if shape == "single-main-process":          # gunicorn with a preloaded application: the control
+        return [["start"]] + wsteps
+    if shape == "workers-without-preload":      # every worker believes it is the main process; the clients wait before connecting
+        return [["start"] for _ in workers] + wsteps
+    if shape == "several-instances":            # two or three relays (masters) on one database, started one after the other
+        return [["start"] for _ in range(rng.randint(2, 3))] + wsteps
+    if shape == "overlapping-reload":           # the old main worker still serves its workers when the new one starts up
+        cut = rng.randint(1, n_workers - 1)
+        steps = [["start"]] + wsteps[:cut] + [["start"]] + wsteps[cut:]
+        if rng.random() < 0.3:
+            steps.insert(rng.randint(cut + 2, len(steps)), ["start"])
+        return steps
+    rest = wsteps + [["start"] for _ in range(rng.randint(1, n_workers - 1))]
+    rng.shuffle(rest)
+    return [["start"]] + rest
+
+
+async def run_deployment(steps, ids, order, port):
+    """ids: {worker: [id bytes]}; order: [[worker, k, pause]] = worker announces its k-th id, then the loop runs `pause` times.
+    Everything is the real code on real sockets: NotifyServer.start(), NotifyClient.start(), NotifyClient.notify()."""
+    import time
+    from nostr_relay import notifier
+
+    all_ids = {i.hex() for v in ids.values() for i in v}
+    servers, workers = [], {}
+
+    async def fast_sleep(t, *a):                # NotifyClient.connect waits 2 s so that the server is up: here the steps say so
+        await _real_sleep(0)
+
+    async def until(cond, seconds, polls=50):
+        """cond() became true, or BOTH `seconds` of wall time and `polls` runs of the loop went by (a process that was not
+        scheduled for a while must not mistake that for silence)"""
+        t0, n = time.time(), 0
+        while not cond():
+            n += 1
+            if n >= polls and time.time() - t0 >= seconds:
+                return False
+            await _real_sleep(0.005)
+        return True
+
+    orig_sleep = asyncio.sleep
+    asyncio.sleep = fast_sleep
+    out = {"connected": [], "lookups": {}, "fanouts": {}, "leftover": 0}
+    peers = []
+    try:
+        for st in steps:
+            if st[0] == "start":
+                srv = notifier.NotifyServer(port=port)
+                srv.start()
+                servers.append(srv)
+                # the attempt settles within a few runs of the loop (numeric address: bind and listen are immediate): it is
+                # listening then, or it has given up
+                await _yield(10)
+                await _real_sleep(0.02)
+            else:
+                storage = FakeStorage(all_ids)
+                client = notifier.NotifyClient(storage, port=port)
+                client.start()
+                workers[st[1]] = (storage, client)
+                await until(lambda: client.writer is not None or client._task.done(), 5.0)
+                await _yield(10)                # the accepting side has run its handler up to the first read
+        out["connected"] = sorted(w for w, (s, c) in workers.items() if c.writer is not None and not c._task.done())
+        await until(lambda: sum(len(s.connections) for s in servers) >= len(out["connected"]), 2.0)   # readiness only, never judged
+        for w, k, pause in order:
+            storage, client = workers[w]
+            if client.writer is not None:
+                try:
+                    await client.notify(FakeEvent(ids[w][k].hex()))
+                except Exception:
+                    pass                        # shows as ids that did not arrive
+            if pause:
+                await _yield(pause)
+        total = sum(len(v) for v in ids.values())
+        want = {w: total - len(ids[w]) for w in workers}
+        seen = [-1, time.time(), 0]             # progress so far, when it last grew, polls since
+
+        def quiet():
+            n = sum(len(s.lookups) for s, c in workers.values())
+            if n != seen[0]:
+                seen[:] = [n, time.time(), 0]
+            seen[2] += 1
+            if all(len(workers[w][0].lookups) >= want[w] for w in workers):
+                return True
+            # nothing has arrived anywhere for 2 s and 200 runs of the loop (loopback delivery takes well under a millisecond)
+            return seen[2] >= 200 and time.time() - seen[1] >= 2.0
+
+        await until(quiet, 60.0, polls=1)
+        await _real_sleep(0.05)                 # a duplicate or an echo would be on its way with the rest
+        await _yield(20)
+        for w, (storage, client) in workers.items():
+            out["lookups"][w] = list(storage.lookups)
+            out["fanouts"][w] = list(storage.fanouts)
+        # every worker goes away: no hub may keep a departed peer in its registry
+        peers = [p for s in servers for p in list(s.connections.values())]
+        for storage, client in workers.values():
+            client._task.cancel()
+        await asyncio.wait([c._task for s, c in workers.values()], timeout=5)
+        await until(lambda: not any(s.connections for s in servers), 5.0, polls=200)
+        out["leftover"] = sum(len(s.connections) for s in servers)
+    finally:
+        try:
+            for p in [p for s in servers for p in list(s.connections.values())] + peers:
+                p.close()
+            for storage, client in workers.values():
+                client._task.cancel()
+            await _yield(5)
+            for s in servers:
+                s._task.cancel()
+            if servers:
+                await asyncio.wait([s._task for s in servers], timeout=5)
+        finally:
+            asyncio.sleep = orig_sleep
+    return out
+
+
+def deployment_case(report, loop, steps, ids, order, shape):
+    """oracle = the end-to-end statement of the property, per worker: the ids it looked up (and fanned out to its subscribers)
+    are exactly the ids announced by the OTHER workers, each once - however many processes tried to start the hub.
+    Returns True when the property held."""
+    n_starts = sum(1 for s in steps if s[0] == "start")
+    workers = sorted(s[1] for s in steps if s[0] == "worker")
+    payload = {"kind": "deployment", "shape": shape, "steps": steps,
+               "ids": {str(w): [i.hex() for i in ids[w]] for w in workers}, "order": order}
+    for attempt in range(3):
+        res = loop.run_until_complete(run_deployment(steps, ids, order, _free_port()))
+        if res["connected"]:
+            break
+        report.count("deployment_port_retries")   # nobody answered at all: the port was lost between choosing and binding it
+    owner = {i.hex(): w for w in workers for i in ids[w]}
+    bad = []
+    for w in workers:
+        got = res["lookups"].get(w, [])
+        want = sorted(h for h, o in owner.items() if o != w)
+        if sorted(got) == want and sorted(res["fanouts"].get(w, [])) == want:
+            continue
+        silent = sorted({o for h, o in owner.items() if o != w and h not in got})
+        bad.append("worker %d%s looked up %d id(s) and fanned out %d, expected the %d ids of the other workers "
+                   "(nothing or not everything from workers %r; %d duplicate(s), %d of its own, %d unknown)"
+                   % (w, "" if w in res["connected"] else " [its notify client is not connected]", len(got),
+                      len(res["fanouts"].get(w, [])), len(want), silent, len(got) - len(set(got)),
+                      sum(1 for h in got if owner.get(h) == w), sum(1 for h in got if h not in owner)))
+    if bad:
+        report.property_failure(
+            "deployment (%s): %d workers, %d notify-server start attempt(s) on one loopback port, %d ids announced: %d worker(s) did "
+            "not get every id of the other workers exactly once (the workers are not one broadcast group): %s"
+            % (shape, len(workers), n_starts, len(owner), len(bad), "; ".join(bad[:3])), payload, None)
+    if res["leftover"]:
+        report.property_failure("deployment (%s): the notify servers keep %d connections after all workers closed"
+                                % (shape, res["leftover"]), payload, None)
+    report.case(("deployment", repr(steps), repr(order), repr(payload["ids"])), nontrivial=n_starts > 1,
+                sample={"deployment": shape, "workers": len(workers), "start_attempts": n_starts, "ids": len(owner),
+                        "steps": "".join("S" if s[0] == "start" else "w" for s in steps)})
+    report.count("deployment_cases")
+    report.count("deployment_cases_" + shape)
+    report.count("deployment_start_attempts", n_starts)
+    report.count("deployment_ids_announced", len(owner))
+    return not bad and not res["leftover"]
+
+
+def random_deployment(rng, shape, max_workers):
+    # 4 and more workers: with k hubs answering on the port instead of one, n workers would all meet at the same hub by accident
+    # with probability k^(1-n) - at most 1/8 for one case, and there are several cases
+    n = rng.randint(4, max_workers)
+    steps = deployment_steps(rng, shape, n)
+    ids, taken = {}, set()
+    for w in range(n):
+        ids[w] = []
+        for _ in range(0 if rng.random() < 0.15 else rng.randint(1, 4)):
+            i = rng.randbytes(32)
+            while i in taken:
+                i = rng.randbytes(32)
+            taken.add(i)
+            ids[w].append(i)
+    if not taken:
+        ids[0].append(rng.randbytes(32))
+    order = [[w, k, rng.choice([0, 0, 1, 3])] for w in range(n) for k in range(len(ids[w]))]
+    rng.shuffle(order)
+    # a worker announces its ids in the order it accepted them
+    nxt = {w: 0 for w in range(n)}
+    for o in order:
+        o[1] = nxt[o[0]]
+        nxt[o[0]] += 1
+    return steps, ids, order
+
+
 # ---- (c) the storage glue: what is announced, when, and can the other workers load it? ----------------------
 
 class _Link:
@@ -512,7 +731,11 @@ def run(report, tier, seed):
         "client: every cut position of 1 id and every pair of cut positions (step 4..) of 2 ids, every 3-chunk split of "
         "16+32+16 style, random chunkings (sizes 1,2,3,7,16,31,33,48,64, random cuts, empty chunks) of 1-5 ids with "
         "boundary byte patterns; server: 2-3 origins, random chunkings and feeding orders, truncated tails "
-        "(disconnect mid-id); storage glue on both backends: sequences of accepted, ephemeral and resubmitted events through the "
+        "(disconnect mid-id); deployment: 4-8 (thorough: 4-12) workers with the real NotifyClient on real loopback sockets, one to n "
+        "processes running NotifyServer(port).start() on ONE free port (workers without preload, overlapping reload, several "
+        "instances, random interleavings of start attempts and connecting workers, and the single main process as control), 0-4 ids "
+        "announced per worker through the real notify(): every worker must look up the ids of all the others exactly once; "
+        "storage glue on both backends: sequences of accepted, ephemeral and resubmitted events through the "
         "real add_event with the notifier replaced by a probe that, at the instant an id is announced, asks an independent reader "
         "of the shared database whether the event can be loaded (SQLite file: a second connection; LMDB: a read transaction, "
         "with the real writer thread, also while another writer holds the write lock: bursts of 2-5 events, and backlogs of 150 "
@@ -573,6 +796,12 @@ def run(report, tier, seed):
     if c.writer.writes != [i1]:
         report.property_failure("NotifyClient.notify wrote %r" % c.writer.writes, {"kind": "notify"}, None)
     report.case(("notify",), nontrivial=True)
+    # the deployment around the hub: real sockets, one to n start attempts on one port (each case takes a few tenths of a second)
+    for k in range(10 if tier == "quick" else 120):
+        shape = DEPLOYMENT_SHAPES[k % len(DEPLOYMENT_SHAPES)]
+        steps, ids, order = random_deployment(rng, shape, 8 if tier == "quick" else 12)
+        if not deployment_case(report, loop, steps, ids, order, shape):
+            break                               # workers that are not one group: every further case would wait for ids that never arrive
     loop.close()
     # storage glue on both backends (their own event loops)
     try:
@@ -605,6 +834,9 @@ def replay_one(report, drv, loop, r):
         chunks = [bytes.fromhex(c) for c in r["chunks"]]
         ids = [bytes.fromhex(c) for c in r.get("ids", [])] or [b"".join(chunks)[i:i + 32] for i in range(0, len(b"".join(chunks)) // 32 * 32, 32)]
         client_case(report, drv, loop, ids, chunks, "replay")
+    elif r.get("kind") == "deployment":
+        ids = {int(w): [bytes.fromhex(h) for h in v] for w, v in r["ids"].items()}
+        deployment_case(report, loop, [list(x) for x in r["steps"]], ids, [list(x) for x in r["order"]], r.get("shape", "replay"))
     elif r.get("kind") == "server":
         streams = {int(o): [bytes.fromhex(c) for c in cs] for o, cs in r["streams"].items()}
         sent = {}
